@@ -173,6 +173,63 @@ def classify_parser(cg, f, expr, depth=0, seen=None):
                 if v[0] != 'configured':
                     return v
             return 'configured', 'local %s' % expr.id
+    # parser obtained from a helper method or an attribute: follow it
+    if isinstance(expr, ast.Call) and isinstance(expr.func, ast.Attribute) \
+            and dotted(expr.func.value) == 'self' and not expr.args and \
+            depth < 4:
+        c = cg.static_class(f)
+        m = cg.prog.find_method(c, expr.func.attr) if c is not None else None
+        if m is not None:
+            rets = [r.value for r in walk_no_defs(m.node)
+                    if isinstance(r, ast.Return) and r.value is not None]
+            verdicts = [classify_parser(cg, m, r, depth + 1) for r in rets]
+            for v in verdicts:
+                if v[0] != 'configured':
+                    return v
+            if verdicts:
+                return 'configured', 'returned by ' + m.qualname
+    if isinstance(expr, ast.Attribute) and depth < 4:
+        root = expr
+        chain_ = []
+        while isinstance(root, ast.Attribute):
+            chain_.append(root.attr)
+            root = root.value
+        if isinstance(root, ast.Name) and root.id == 'self':
+            c = cg.static_class(f)
+            first = chain_[-1]
+            if c is not None:
+                owner, val = cg.prog.find_attr(c, first)
+                inst_assigned = any(
+                    isinstance(n, ast.Assign) and any(
+                        unparse(t) == 'self.' + first for t in n.targets)
+                    for k in cg.prog.mro(c) if hasattr(k, 'methods')
+                    for mm in k.methods.values()
+                    for n in walk_no_defs(mm.node))
+                if owner is not None and not inst_assigned:
+                    return 'shared', 'self.%s lives on the class %s (%s): ' \
+                        'one parser object, built with the options of ' \
+                        'whichever instance stored it first, is shared by ' \
+                        'all protocol instances' % (
+                            '.'.join(reversed(chain_)), owner.name,
+                            unparse(val)[:30])
+                # instance-level cache: every store must be configured
+                stores = []
+                for k in cg.prog.mro(c):
+                    if not hasattr(k, 'methods'):
+                        continue
+                    for mm in k.methods.values():
+                        for n in walk_no_defs(mm.node):
+                            if isinstance(n, ast.Assign) and any(
+                                    unparse(t) == unparse(expr)
+                                    for t in n.targets):
+                                stores.append((mm, n.value))
+                if stores:
+                    for mm, v in stores:
+                        r = classify_parser(cg, mm, v, depth + 1)
+                        if r[0] != 'configured':
+                            return r
+                    return 'configured', 'instance attribute %s' % \
+                        unparse(expr)
     return 'unknown', unparse(expr)
 
 
@@ -224,6 +281,13 @@ def run(prog, res, tier):
             n_req += 1
             if verdict == 'configured':
                 res.ob('R1', where, inst + ' <= ' + why, 'ok')
+            elif verdict == 'shared':
+                res.ob('R1', where, inst, 'VIOLATED')
+                res.finding(
+                    'R1', '%s|%s|shared-parser' % (f.qualname,
+                                                   unparse(call.func)), where,
+                    'the parser handed to %s comes from class-level state: %s'
+                    % (unparse(call.func), why))
             elif verdict == 'default':
                 res.ob('R1', where, inst, 'VIOLATED')
                 res.finding(
@@ -389,6 +453,21 @@ def run(prog, res, tier):
             res.ob('R2', f.where, c.name + '.__init__ forwards parser options '
                    'unchanged', 'ok')
     res.count('subclass_ctors', n_sub)
+    # R3: syntax errors (also entity/nesting bombs rejected by libxml2) leave
+    # the XML protocols only as client faults
+    from . import c10
+    from ..callgraph import CallGraph as _CG
+    from ..excflow import ExcFlow
+    from ..report import Result
+    saved = c10.PARSING_PROTOCOLS
+    c10.PARSING_PROTOCOLS = [p for p in saved if 'xml' in p or 'soap' in p]
+    try:
+        res.share('R3', 'XML syntax errors (including rejected bombs) '
+                  'become Client faults on every path of create_in_document '
+                  '(C10-R2)', 'C10', c10.rule_r2, prog, Result,
+                  ExcFlow(prog, _CG(prog)))
+    finally:
+        c10.PARSING_PROTOCOLS = saved
 
 
 _X = 'spyne/protocol/xml.py'
@@ -447,6 +526,39 @@ MUTANTS = [
                    'root, xmlids = etree.XMLID(string, parser)',
                    'root, xmlids = etree.XMLID(string)'),
            '_parse_xml_string'),
+    Mutant('class-level-parser-cache', 'R1', 'fire', _X,
+           in_func('XmlDocument',
+                   r"    def create_in_document\(self, ctx, charset=None\):"
+                   r"(.*?)parser=XMLParser\(\*\*self\.parser_kwargs\)\)",
+                   lambda m_: "    _cache = {}\n\n"
+                   "    def get_parser(self):\n"
+                   "        if 'p' not in self._cache:\n"
+                   "            self._cache['p'] = XMLParser(**self."
+                   "parser_kwargs)\n        return self._cache['p']\n\n"
+                   "    def create_in_document(self, ctx, charset=None):" +
+                   m_.group(1) + "parser=self.get_parser())", regex=True),
+           'shared-parser'),
+    Mutant('twin-instance-level-parser-cache', 'R1', 'benign', _X,
+           in_func('XmlDocument',
+                   r"    def create_in_document\(self, ctx, charset=None\):"
+                   r"(.*?)parser=XMLParser\(\*\*self\.parser_kwargs\)\)",
+                   lambda m_: "    def get_parser(self):\n"
+                   "        return XMLParser(**self.parser_kwargs)\n\n"
+                   "    def create_in_document(self, ctx, charset=None):" +
+                   m_.group(1) + "parser=self.get_parser())", regex=True),
+           ''),
+    Mutant('soap-flattened-try', 'R3', 'fire', _S,
+           in_func('_parse_xml_string',
+                   r"        try:\n            root, xmlids = etree\.XMLID\("
+                   r"string, parser\)\n\n        except ValueError as e:\n"
+                   r"(.*?)parser\)\n\n    except \(XMLSyntaxError, Unicode"
+                   r"DecodeError, LookupError\) as e:",
+                   "        root, xmlids = etree.XMLID(string, parser)\n\n"
+                   "    except ValueError as e:\n"
+                   "        root, xmlids = etree.XMLID(string.encode(charset),"
+                   " parser)\n\n"
+                   "    except (XMLSyntaxError, UnicodeDecodeError, "
+                   "LookupError) as e:", regex=True), 'XMLSyntaxError'),
     Mutant('twin-parser-local', 'R1', 'benign', _X,
            in_func('XmlDocument.create_in_document',
                    "string = b''.join(ctx.in_string)",
